@@ -34,7 +34,7 @@ OPTS.verbosity = -3
 EXC = [None, ValueError, KeyError, AttributeError, IndexError, RecursionError, UnicodeError,
        lambda m: SAXParseException(m, None, None), AssertionError, TypeError, NotImplementedError, ZeroDivisionError]
 NEXC = len(EXC)
-PARSE_BEH = ["ok", "parseerror", "errs_only"] + list(range(1, NEXC))
+PARSE_BEH = ["ok", "parseerror", "errs_only", "errs_mixed"] + list(range(1, NEXC))
 WHEN = ["always", "first-call", "second-call", "summary-only"]
 DOCS = ["Hello *world* L{x}", "", "one\n\ntwo <b>&amp;</b>\n    indented", "@param x: unknown\n@return: y"]
 FORMATS = ["epytext", "restructuredtext", "google", "numpy", "plaintext"]
@@ -126,6 +126,11 @@ def run(beh, doc, fmt, processtypes, kind):
                 raise e
             if b == "errs_only":
                 errs.append(ParseError("recoverable", 1, is_fatal=False))
+            elif b == "errs_mixed":
+                # what docutils does: problems of several severities, all recovered from (a parsed document is returned)
+                errs.append(ParseError("recoverable warning one", 1, is_fatal=False))
+                errs.append(ParseError("recovered error", 1, is_fatal=True))
+                errs.append(ParseError("recoverable warning two", 1, is_fatal=False))
             elif b != "ok":
                 raise EXC[b]("boom parse")
             return StubParsed(d, beh, calls)
@@ -163,8 +168,8 @@ def check(beh, doc, fmt, processtypes, kind):
     except Exception as e:
         note(why="exception leaves the format_* wrappers", beh=beh, doc=doc, fmt=fmt, exc=repr(e))
         return False
-    parse_fatal = beh["parse"] not in ("ok", "errs_only")
-    stan_fails = beh["parse"] in ("ok", "errs_only") and beh["to_stan"] != 0
+    parse_fatal = beh["parse"] not in ("ok", "errs_only", "errs_mixed")
+    stan_fails = beh["parse"] in ("ok", "errs_only", "errs_mixed") and beh["to_stan"] != 0
     if doc == "":
         return True if "fine" in out["gdoc"] else False
     text = visible_text(out["doc"])
@@ -175,7 +180,12 @@ def check(beh, doc, fmt, processtypes, kind):
             note(why="original text not shown after a fatal failure", beh=beh, doc=doc, shown=text)
             return False
     nrep = sum(1 for m in msgs if m[2] < 0)
-    must_report = parse_fatal or beh["parse"] == "errs_only" or (stan_fails and out["fired"] > 0)
+    must_report = parse_fatal or beh["parse"] in ("errs_only", "errs_mixed") or (stan_fails and out["fired"] > 0)
+    if beh["parse"] == "errs_mixed":
+        for descr in ("recoverable warning one", "recovered error", "recoverable warning two"):
+            if not any(descr in m[1] for m in msgs if m[2] < 0):
+                note(why="a problem the parser recovered from is not reported", missing=descr, beh=beh, msgs=msgs)
+                return False
     if must_report and nrep < 1:
         note(why="failure not reported against the object", beh=beh, msgs=msgs)
         return False
@@ -183,7 +193,7 @@ def check(beh, doc, fmt, processtypes, kind):
         note(why="report does not name the object's location", beh=beh, msgs=msgs)
         return False
     owner = "m.Base.f" if kind == "inherited" else f.fullName()
-    if (parse_fatal or beh["parse"] == "errs_only") and owner not in s.parse_errors["docstring"]:
+    if (parse_fatal or beh["parse"] in ("errs_only", "errs_mixed")) and owner not in s.parse_errors["docstring"]:
         note(why="object missing from parse_errors", beh=beh, errors={k: sorted(v) for k, v in s.parse_errors.items()})
         return False
     # every distinct problem is reported once (the same message is not repeated for the same object)
@@ -203,7 +213,7 @@ def check(beh, doc, fmt, processtypes, kind):
     timeout=(240, 2400), cls="F", tracing="concrete-after-choice", twin="first",
     code=["pydoctor.epydoc2stan.parse_docstring", "safe_to_stan", "format_docstring", "format_summary", "format_toc", "format_docstring_fallback", "format_summary_fallback",
           "reportErrors", "ensure_parsed_docstring", "_get_parsed_summary", "pydoctor.epydoc.markup.ParsedDocstring.get_summary/get_toc", "pydoctor.model.System.parse_errors"],
-    bounds={"quick": "parser behaviour (succeeds / ParseError / recoverable errors / 11 exception classes) x to_stan behaviour (succeeds / 11 exception classes; failing always, on the first call, on the second call, or when the summary is rendered first) x to_node (succeeds / NotImplementedError) x 2 docstrings x 5 docformats x process-types on/off x object kind (function with its own docstring; method showing a docstring inherited from the base class)",
+    bounds={"quick": "parser behaviour (succeeds / ParseError / recoverable errors / recovered problems of mixed severity / 11 exception classes) x to_stan behaviour (succeeds / 11 exception classes; failing always, on the first call, on the second call, or when the summary is rendered first) x to_node (succeeds / NotImplementedError) x 2 docstrings x 5 docformats x process-types on/off x object kind (function with its own docstring; method showing a docstring inherited from the base class)",
             "thorough": "same x 4 docstrings x 5 object kinds"},
     stubs=["epydoc2stan.get_parser_by_name returns a stub parser for the object under test (plaintext for the bystander object)", "the ParsedDocstring returned by the stub raises per schedule"],
     outside="the real parsers on arbitrary docstring text; to_node raising anything but NotImplementedError; hangs",
@@ -220,7 +230,7 @@ def h_fault_schedule(ts: int, tn: bool, di: int, fi: int, pt: bool, ki: int) -> 
     fi = pick(fi, 0, 4)
     pt = pickb(pt)
     ki = pick(ki, 0, NKIND - 1)
-    if PARSE_BEH[pi] not in ("ok", "errs_only") and (ts != 0 or tn or wi != 0):
+    if PARSE_BEH[pi] not in ("ok", "errs_only", "errs_mixed") and (ts != 0 or tn or wi != 0):
         return True         # the stub ParsedDocstring is never built when the parser fails: one representative suffices
     if ts == 0 and wi != 0:
         return True
